@@ -3,7 +3,7 @@
 // Contracts for the deductive verifier in /verif (comment-only: adds no declarations).
 package certgen
 
-//@ use net asn1 errors time ssh crypto
+//@ use net asn1 errors time ssh crypto x509
 
 // ---- C10 / C11: the RFC 3779 address-block codec ---------------------------------------------------
 //@ func decodeIPV4AddressChoice
@@ -34,3 +34,14 @@ package certgen
 // exported helper that signs the key SSSD has on file; no keymasterd route (and nothing outside the tests) calls it
 //@ func GenSSHCertFileStringFromSSSDPublicKey
 //@   atcall GenSSHCertFileString overrides C10.ssh-strong (username2 string, userPubKey2 string, signer2 ssh.Signer, host_identity2 string, duration2 time.Duration, customExtensions2 map[string]string) :: true #C10.exempt-sssd-helper-not-reachable-from-any-route @C10
+
+// ---- X.509 user certificates (C02 binding, C03 window, C10 strength) -----------------------------------------
+//@ func GenUserX509Cert
+//@   requires strongKey(userPub)                                                                         #C10.x509-strong @C10
+//@   atcall crypto/x509.CreateCertificate requires (rnd io.Reader, template *x509.Certificate, parent *x509.Certificate, pub any, priv any) :: template.Subject.CommonName == userName && pub == userPub && parent == caCert  #C02.x509-subject-key @C02
+//@   atcall crypto/x509.CreateCertificate requires (rnd io.Reader, template *x509.Certificate, parent *x509.Certificate, pub any, priv any) :: !template.IsCA && template.BasicConstraintsValid && len(template.ExtKeyUsage) == 1 && template.ExtKeyUsage[0] == x509.ExtKeyUsageClientAuth  #C02.x509-end-entity @C02
+//@   atcall crypto/x509.CreateCertificate requires (rnd io.Reader, template *x509.Certificate, parent *x509.Certificate, pub any, priv any) :: timeNanos(template.NotBefore) == nowNanos() && timeNanos(template.NotAfter) == nowNanos() + int64(duration)  #C03.x509-window @C03
+//@ func GenIPRestrictedX509Cert
+//@   requires strongKey(userPub)                                                                         #C10.ipcert-strong @C10
+//@   atcall crypto/x509.CreateCertificate requires (rnd io.Reader, template *x509.Certificate, parent *x509.Certificate, pub any, priv any) :: template.Subject.CommonName == userName && pub == userPub && parent == caCert && !template.IsCA && template.BasicConstraintsValid  #C02.ipcert-subject-key @C02
+//@   atcall crypto/x509.CreateCertificate requires (rnd io.Reader, template *x509.Certificate, parent *x509.Certificate, pub any, priv any) :: timeNanos(template.NotBefore) == nowNanos() && timeNanos(template.NotAfter) == nowNanos() + int64(duration)  #C03.ipcert-window @C03
